@@ -74,6 +74,9 @@ pub use key::*;
 
 pub mod tests;
 
+#[cfg(feature = "verif-hooks")]
+pub mod verif_hooks;
+
 /// Marker trait for unsigned integer types whose bits can be encrypted by [`FheUint`].
 ///
 /// Implemented for `u8`, `u16`, `u32`, `u64`, and `u128`.  The associated
